@@ -2,10 +2,10 @@
 import z3
 
 from pyvc.vals import Val, NONE, I, B, R, Z, ref, fresh, cls_of, py_pow, PENDING, RUNNING, FINISHED
-from pyvc.verify import Unit, sym_inst, sym_val, user_calls
+from pyvc.verify import Unit, sym_inst, sym_val, user_calls, new_inst
 from pyvc.symexec import Raise, LoopSpec
 from pyvc.b_calls import py_isinstance
-from .base import make_cfg, FIELD_TYPES, INST, OPT, RecordCall
+from .base import make_cfg, FIELD_TYPES, INST, OPT, RecordCall, local, decided
 
 FIELD_TYPES.update({
     ("ExceptionRetryPolicy", "_max_attempts"): "int",
@@ -44,7 +44,7 @@ def _cfg_policy():
     def inv(engine, st, fr, ctx):
         # no class before position i matches the exception
         at, i = ctx["src"]["at"], ctx["i"]
-        exc = engine.to_val(st, st.envs[fr.eid]["exception"])
+        exc = engine.to_val(st, local(engine, st, fr, "$call:exception", "exception"))
         j = z3.Int("j!sr")
         return [("no earlier base class matches", z3.ForAll([j], z3.Implies(z3.And(j >= 0, j < i), z3.Not(py_isinstance(exc, z3.Select(at, j))))))]
     cfg.loops[("more_executors._impl.retry.ExceptionRetryPolicy.should_retry", 0)] = LoopSpec(invariant=inv, heap_modifies=[])
@@ -156,7 +156,7 @@ def _post_eval(engine, st, ctx, out):
     if raised:
         cl.append(("a policy that raises ends retrying: (False, None)", "PC", z3.And(z3.Not(t), z3.BoolVal(items[1] is None)), ["C05", "C18"]))
     if not sr:
-        saw_stop = any(a == "job.stop_retry" and b for a, b in st.decisions)
+        saw_stop = decided(engine, st, "retry.eval_policy", "{$param#0|job}.stop_retry", True)
         cl.append(("the policy is skipped only when a cancel was requested (stop_retry), and then retrying ends", "PC",
                    z3.And(z3.BoolVal(saw_stop), z3.Not(t)), ["C05", "C06"]))
     elif not raised:
@@ -222,17 +222,17 @@ def _cfg_exec():
 
     def find_inv(engine, st, fr, ctx):
         at, i = ctx["src"]["at"], ctx["i"]
-        d = engine.to_val(st, st.envs[fr.eid]["delegate_future"])
+        d = engine.to_val(st, local(engine, st, fr, "$param#1", "delegate_future"))
         j = z3.Int("j!dcb")
-        fj = st.envs[fr.eid]["found_job"]
+        fj = local(engine, st, fr, "$none#0", "found_job")
         return [("no earlier job belongs to this delegate", z3.ForAll([j], z3.Implies(z3.And(j >= 0, j < i), st.get("RetryJob.delegate_future", Val.id(z3.Select(at, j))) != d))),
                 ("nothing found yet", z3.BoolVal(fj is None) if not isinstance(fj, Z) else Val.is_none(fj.t))]
     cfg.loops[("more_executors._impl.retry.RetryExecutor._delegate_callback", 0)] = LoopSpec(
-        invariant=find_inv, heap_modifies=[], local_types={"found_job": OPT(INST("RetryJob"))})
+        invariant=find_inv, heap_modifies=[], local_types={"$none#0|found_job": OPT(INST("RetryJob"))})
 
     def pop_inv(engine, st, fr, ctx):
         at, i = ctx["src"]["at"], ctx["i"]
-        job = engine.to_val(st, st.envs[fr.eid]["job"])
+        job = engine.to_val(st, local(engine, st, fr, "$param#1", "job"))
         j = z3.Int("j!pop")
         return [("the job is not among the earlier entries", z3.ForAll([j], z3.Implies(z3.And(j >= 0, j < i), z3.Select(at, j) != job)))]
     cfg.loops[("more_executors._impl.retry.RetryExecutor._pop_job", 0)] = LoopSpec(invariant=pop_inv, heap_modifies=[])
@@ -310,7 +310,7 @@ def _post_dcb(engine, st, ctx, out):
     sets = [i for i, e in enumerate(st.trace) if e.kind == "event-set"]
     qdec = pops
     qinc = [a for _, a in apps]
-    if any(a == "delegate_future.cancelled()" and b for a, b in st.decisions):
+    if decided(engine, st, "retry.RetryExecutor._delegate_callback", "{$param#1|delegate_future}.cancelled()", True):
         cl.append(("cancelled attempt: the policy is not consulted and nothing is re-submitted", "PC", z3.BoolVal(not pol and not apps), ["C05", "C06"]))
         cl.append(("cancelled attempt: its job record is dropped (no reference to a finished attempt is kept)", "PC",
                    z3.And(z3.BoolVal(len(pops) == 1 and len(qdec) == 1), pops[0].args[0] == ctx["J0"].t if pops else False), ["C12", "C20"]))
@@ -368,8 +368,7 @@ UNITS.append(Unit("RetryExecutor._delegate_callback", "retry.RetryExecutor._dele
 # ---- ExceptionRetryPolicy.__init__: the policy's parameters are exactly the keyword arguments, defaults otherwise -------------
 def _setup_policy_init(variant):
     def setup(engine, st):
-        oid = st.alloc("ExceptionRetryPolicy")
-        st.assume(cls_of(z3.IntVal(oid)) == engine.tag("ExceptionRetryPolicy"))
+        oid = engine.concrete_id(new_inst(engine, st, "ExceptionRetryPolicy").t)        # fresh, private, every field UNSET
         me = Z(ref(oid), INST("ExceptionRetryPolicy"))
         kw = {}
         if variant != "defaults":
@@ -418,8 +417,7 @@ REPLAYS = [("C03", "RetryExecutor._delegate_callback", "replay/c03_retry_delegat
 
 # ---- RetryPolicy (the base class custom policies derive from): never retries, no delay -----------------------------------------------
 def _setup_base_policy(engine, st):
-    oid = st.alloc("RetryPolicy")
-    st.assume(cls_of(z3.IntVal(oid)) == engine.tag("RetryPolicy"))
+    oid = engine.concrete_id(new_inst(engine, st, "RetryPolicy").t)        # fresh, private, every field UNSET
     me = Z(ref(oid), INST("RetryPolicy"))
     return [me, sym_val(engine, st, "int", "attempt"), sym_val(engine, st, "future", "future")], {}, {}
 
